@@ -506,10 +506,11 @@ def run_shard(desc, tier):
     for i, h in enumerate(histories(DEPTH[tier])):
         if i % n != k:
             continue
-        # every history on the whole-second UTC clock; every history of depth <= 2 (thorough: all) also on a sub-second clock and in two other process time zones
+        # every history on the whole-second UTC clock; every history of depth <= 2 (thorough: <= 3) also under every other variant
+        # (sub-second clock, other process time zones, application settings, overlay, link, epoch)
         problems = run_history(h, r)
         for v in range(1, len(VARIANTS)):
-            if len(h) <= 2 or tier == "thorough":
+            if len(h) <= (2 if tier == "quick" else 3):
                 for p_ in run_history(h, r, variant=v):
                     problems.append(p_[:3] + (f"[file clock +{VARIANTS[v][0]}s, TZ={VARIANTS[v][1] or 'UTC'}, settings {VARIANTS[v][2]}] " + p_[3],))
         r.count("traces")
